@@ -2,6 +2,7 @@ package fzf
 
 import (
 	"io/fs"
+	"os"
 	"path/filepath"
 	"sync"
 
@@ -15,13 +16,18 @@ func init() {
 }
 
 type zzDirEntry struct {
-	name  string
-	isDir bool
+	name    string
+	isDir   bool
+	symlink bool
+	toDir   bool // symlink whose target is a directory
 }
 
 func (d zzDirEntry) Name() string { return d.name }
 func (d zzDirEntry) IsDir() bool  { return d.isDir }
 func (d zzDirEntry) Type() fs.FileMode {
+	if d.symlink {
+		return fs.ModeSymlink
+	}
 	if d.isDir {
 		return fs.ModeDir
 	}
@@ -129,47 +135,95 @@ func init() {
 }
 
 type zzTreeEntry struct {
-	path  string // relative to the root, no leading "./"
-	isDir bool
+	path   string // relative to the root, no leading "./"
+	isDir  bool
+	link   bool   // a symbolic link ...
+	target string // ... to this entry of the tree
 }
 
-// the tree the modelled walker reports (pre-order); natively the same tree exists on disk
+// the tree the modelled walker reports; natively the same tree exists on disk
 var zzTree []zzTreeEntry
 
-// zzMX_fastwalk_Walk models fastwalk.Walk over zzTree: every entry once, children after their
-// directory, SkipDir on a directory prunes its subtree, SkipDir on a file skips the rest of its
-// directory (as filepath.WalkDir documents).
+func zzParent(p string) string {
+	for i := len(p) - 1; i >= 0; i-- {
+		if p[i] == '/' {
+			return p[:i]
+		}
+	}
+	return ""
+}
+
+func zzTreeIsDir(p string) bool {
+	for _, e := range zzTree {
+		if e.path == p {
+			return e.isDir
+		}
+	}
+	return false
+}
+
+// zzM_isSymlinkToDir stands in for isSymlinkToDir (os.Stat on the link) in the engine: the answer
+// comes from the tree description. Natively the real function runs against the real tree.
+func zzM_isSymlinkToDir(path string, de os.DirEntry) bool {
+	z, ok := de.(zzDirEntry)
+	return ok && z.symlink && z.toDir
+}
+
+// zzMX_fastwalk_Walk models fastwalk.Walk over zzTree, following fastwalk.go (walk, onDirEnt):
+// every entry of a directory is reported once; SkipDir on a directory or on a symbolic link means
+// "do not descend"; SkipDir on a plain file is handed up like any other error; a symbolic link to a
+// directory is descended, without a second callback, only when conf.Follow is set and the callback
+// returned nil. The order within a directory is unspecified (the real walker is concurrent).
 func zzMX_fastwalk_Walk(conf *fastwalk.Config, root string, fn fs.WalkDirFunc) error {
-	if err := fn(root, zzDirEntry{name: root, isDir: true}, nil); err != nil {
+	err := fn(root, zzDirEntry{name: root, isDir: true}, nil)
+	if err == filepath.SkipDir {
 		return nil
 	}
-	skipPrefix := []string{}
+	if err != nil {
+		return err
+	}
+	return zzModelWalkDir(conf, root, "", fn)
+}
+
+func zzModelWalkDir(conf *fastwalk.Config, shown string, real string, fn fs.WalkDirFunc) error {
 	for _, e := range zzTree {
-		skipped := false
-		for _, p := range skipPrefix {
-			if len(e.path) > len(p) && e.path[:len(p)] == p {
-				skipped = true
-			}
-		}
-		if skipped {
+		if zzParent(e.path) != real {
 			continue
 		}
-		err := fn(root+"/"+e.path, zzDirEntry{name: zzBase(e.path), isDir: e.isDir}, nil)
-		if err == filepath.SkipDir {
-			if e.isDir {
-				skipPrefix = append(skipPrefix, e.path+"/")
-			} else {
-				dir := ""
-				for i := len(e.path) - 1; i >= 0; i-- {
-					if e.path[i] == '/' {
-						dir = e.path[:i+1]
-						break
-					}
-				}
-				skipPrefix = append(skipPrefix, dir)
+		base := zzBase(e.path)
+		p := shown + "/" + base
+		switch {
+		case e.link:
+			toDir := zzTreeIsDir(e.target)
+			err := fn(p, zzDirEntry{name: base, symlink: true, toDir: toDir}, nil)
+			if err == filepath.SkipDir {
+				continue
 			}
-		} else if err != nil {
-			return err
+			if err != nil {
+				return err
+			}
+			// fastwalk's shouldTraverse: a link to one of its own ancestors is not descended
+			loop := len(e.path) > len(e.target) && e.path[:len(e.target)+1] == e.target+"/"
+			if conf.Follow && toDir && !loop {
+				if err := zzModelWalkDir(conf, p, e.target, fn); err != nil {
+					return err
+				}
+			}
+		case e.isDir:
+			err := fn(p, zzDirEntry{name: base, isDir: true}, nil)
+			if err == filepath.SkipDir {
+				continue
+			}
+			if err != nil {
+				return err
+			}
+			if err := zzModelWalkDir(conf, p, e.path, fn); err != nil {
+				return err
+			}
+		default:
+			if err := fn(p, zzDirEntry{name: base}, nil); err != nil {
+				return err
+			}
 		}
 	}
 	return nil
@@ -180,16 +234,20 @@ func zzMX_fastwalk_DefaultToSlash() bool { return false }
 // H19.tree: the whole readFiles (skip-list derivation + callback) over a small directory tree:
 // the candidate list is exactly what the walker options describe.
 func zzH_C19_tree() {
-	opts := walkerOpts{file: zzv.CfgBool("file"), dir: zzv.CfgBool("dir"), hidden: zzv.CfgBool("hidden"), follow: false}
+	opts := walkerOpts{file: zzv.CfgBool("file"), dir: zzv.CfgBool("dir"), hidden: zzv.CfgBool("hidden"), follow: zzv.CfgBool("follow")}
 	zzv.FSEnterTemp("walk")
 	zzTree = nil
 	add := func(p string, isDir bool) {
-		zzTree = append(zzTree, zzTreeEntry{p, isDir})
+		zzTree = append(zzTree, zzTreeEntry{path: p, isDir: isDir})
 		if isDir {
 			zzv.FSMkdir(p)
 		} else {
 			zzv.FSTouch(p)
 		}
+	}
+	link := func(p, target, relTarget string) {
+		zzTree = append(zzTree, zzTreeEntry{path: p, link: true, target: target})
+		zzv.FSSymlink(relTarget, p)
 	}
 	// a fixed shape with optional parts
 	add("f", false)
@@ -208,7 +266,19 @@ func zzH_C19_tree() {
 	if zzv.Bool() {
 		add("gen", false) // a file named like a skip entry
 	}
-	skips := [][]string{{}, {"gen"}, {"lib/gen"}, {"/lib/gen"}, {"mylib", "x"}}[zzv.Choose(0, 4)]
+	if zzv.CfgBool("links") {
+		switch zzv.Choose(0, 4) {
+		case 1:
+			link("ln", "lib", "lib") // a symbolic link to a directory
+		case 2:
+			link(".ln", "lib", "lib") // ... with a hidden name
+		case 3:
+			link("lf", "f", "f") // a symbolic link to a file
+		case 4:
+			link("lib/gen/up", "lib/gen", "../gen") // a link that leads back to its own directory (a cycle)
+		}
+	}
+	skips := [][]string{{}, {"gen"}, {"lib/gen"}, {"/lib/gen"}, {"mylib", "x"}, {"ln"}}[zzv.Choose(0, 5)]
 	var got []string
 	var mu sync.Mutex // the real walker calls back from several goroutines
 	r := &Reader{pusher: func(b []byte) bool {
@@ -220,58 +290,75 @@ func zzH_C19_tree() {
 	ok := r.readFiles([]string{"."}, opts, skips)
 	zzv.Reach("walked")
 	zzv.Assert("walk-succeeds", ok)
-	// reference
-	var want []string
-	pruned := []string{}
-	for _, e := range zzTree {
-		under := false
-		for _, p := range pruned {
-			if len(e.path) > len(p) && e.path[:len(p)] == p {
-				under = true
-			}
-		}
-		if under {
-			continue
-		}
-		if e.isDir {
-			base := zzBase(e.path)
-			skip := !opts.hidden && base[0] == '.'
-			for _, s := range skips {
-				hasSep := false
-				for i := 0; i < len(s); i++ {
-					if s[i] == '/' {
-						hasSep = true
-					}
-				}
-				switch {
-				case !hasSep:
-					if base == s {
-						skip = true
-					}
-				case s[0] == '/':
-					if zzHasSuffix(e.path, s) {
-						skip = true
-					}
-				default:
-					if e.path == s || zzHasSuffix(e.path, "/"+s) {
-						skip = true
-					}
+	// reference: what the options describe
+	var want []string // must be listed exactly once
+	var free []string // the entry of a followed link itself: whether it counts as file or directory is not specified
+	prunedDir := func(shown string) bool {
+		base := zzBase(shown)
+		skip := !opts.hidden && base[0] == '.'
+		for _, s := range skips {
+			hasSep := false
+			for i := 0; i < len(s); i++ {
+				if s[i] == '/' {
+					hasSep = true
 				}
 			}
-			if skip {
-				pruned = append(pruned, e.path+"/")
+			switch {
+			case !hasSep:
+				if base == s {
+					skip = true
+				}
+			case s[0] == '/':
+				if zzHasSuffix(shown, s) {
+					skip = true
+				}
+			default:
+				if shown == s || zzHasSuffix(shown, "/"+s) {
+					skip = true
+				}
+			}
+		}
+		return skip
+	}
+	var ref func(shown string, real string, depth int)
+	ref = func(shown string, real string, depth int) {
+		for _, e := range zzTree {
+			if zzParent(e.path) != real {
 				continue
 			}
-			if opts.dir {
-				want = append(want, e.path+"/")
+			p := shown + zzBase(e.path)
+			switch {
+			case e.link && zzTreeIsDir(e.target) && opts.follow:
+				if prunedDir(p) {
+					continue
+				}
+				free = append(free, p+"/")
+				if e.path != "lib/gen/up" {
+					ref(p+"/", e.target, depth+1)
+				}
+			case e.link:
+				if opts.file {
+					want = append(want, p)
+				}
+			case e.isDir:
+				if prunedDir(p) {
+					continue
+				}
+				if opts.dir {
+					want = append(want, p+"/")
+				}
+				ref(p+"/", e.path, depth+1)
+			default:
+				if opts.file {
+					want = append(want, p)
+				}
 			}
-		} else if opts.file {
-			want = append(want, e.path)
 		}
 	}
+	ref("", "", 0)
 	zzv.Observe("listed", len(got))
 	// compare as sets (the real walker is concurrent; each entry must appear exactly once)
-	same := len(got) == len(want)
+	same := true
 	for _, w := range want {
 		n := 0
 		for _, g := range got {
@@ -283,5 +370,68 @@ func zzH_C19_tree() {
 			same = false
 		}
 	}
+	for _, g := range got {
+		n := 0
+		for _, w := range want {
+			if g == w {
+				n++
+			}
+		}
+		m := 0
+		for _, f := range free {
+			if g == f {
+				m++
+			}
+		}
+		k := 0
+		for _, h := range got {
+			if g == h {
+				k++
+			}
+		}
+		if n == 0 && (m == 0 || k != 1) {
+			same = false
+		}
+	}
 	zzv.Assert("lists-exactly-the-described-entries", same)
+}
+
+func init() {
+	zzHarnesses["zzH_C19_opts"] = zzH_C19_opts
+}
+
+// H19.opts: parseWalkerOpts on comma lists of option words (any case), empty items and a foreign word.
+func zzH_C19_opts() {
+	words := []string{"file", "dir", "hidden", "follow", "", "File", "DIR", "files", "x"}
+	n := zzv.Choose(0, zzv.CfgInt("nmax"))
+	str := ""
+	var f, d, h, fo, bad bool
+	for i := 0; i < n; i++ {
+		w := zzv.Choose(0, len(words)-1)
+		if i > 0 {
+			str += ","
+		}
+		str += words[w]
+		switch w {
+		case 0, 5:
+			f = true
+		case 1, 6:
+			d = true
+		case 2:
+			h = true
+		case 3:
+			fo = true
+		case 4:
+		default:
+			bad = true
+		}
+	}
+	opts, err := parseWalkerOpts(str)
+	zzv.Reach("parsed")
+	if bad || !(f || d) {
+		zzv.Assert("invalid-walker-option-rejected", err != nil)
+		return
+	}
+	zzv.Assert("valid-walker-option-accepted", err == nil)
+	zzv.Assert("walker-options-as-written", opts.file == f && opts.dir == d && opts.hidden == h && opts.follow == fo)
 }
